@@ -176,6 +176,8 @@ pub struct World {
     /// app-level events per node (canonical strings) of the last step
     pub last_events: Vec<Vec<String>>,
     pub last_raw: Vec<Vec<HandlerOut>>,
+    /// (node, requester, request id) of the response the application handed over in this step
+    pub last_responded: Option<(usize, NodeAddress, Vec<u8>)>,
     pub all_events: Vec<Vec<String>>,
     pub t0: Instant,
     pub violations: Vec<Violation>,
@@ -219,6 +221,8 @@ pub struct Monitors {
     pub c13: bool,
     pub c15: bool,
     pub c19: bool,
+    /// handler part of C20: a request held by the application stays answerable
+    pub c20: bool,
 }
 
 pub fn workload_id(k: usize) -> Vec<u8> {
@@ -289,7 +293,7 @@ impl World {
             ledger: vec![ReqLedger::default(); cfg.workload.len()],
             keys: BTreeMap::new(),
             last_events: vec![vec![]; n],
-            last_raw: vec![vec![]; n],
+            last_raw: vec![vec![]; n], last_responded: None,
             all_events: vec![vec![]; n],
             t0: Instant::now(),
             violations: vec![],
@@ -728,6 +732,7 @@ impl World {
             }
             Ev::Respond(n) => {
                 let (addr, req) = self.nodes[*n].inbound.remove(0);
+                self.last_responded = Some((*n, addr.clone(), req.id.0.clone()));
                 let shape = (0..self.cfg.workload.len()).find(|k| workload_id(*k) == req.id.0).map(|k| self.cfg.workload[k].body.clone());
                 let responses: Vec<v::ResponseBody> = match (&req.body, shape) {
                     (v::RequestBody::Ping { .. }, _) => vec![v::ResponseBody::Pong { enr_seq: 1, ip: addr.socket_addr.ip(), port: addr.socket_addr.port().try_into().unwrap() }],
@@ -955,7 +960,9 @@ impl World {
                 if let Plain::Request(id, _) = &plain {
                     if let Some(w) = (0..self.cfg.workload.len()).find(|w| workload_id(*w) == *id && self.cfg.workload[*w].from == owner) {
                         *self.ledger[w].transmissions.entry(k).or_insert(0) += 1;
-                        if d.kind == 2 {
+                        // a byte-identical re-send of the handshake datagram by the request timer is the
+                        // same handshake, not a second answer
+                        if d.kind == 2 && !retransmission {
                             self.ledger[w].handshakes += 1;
                         }
                     }
@@ -989,6 +996,46 @@ impl World {
                 if self.ledger[k].handshakes > 1 {
                     let n = self.ledger[k].handshakes;
                     self.violate("C03", "a request is answered with at most one handshake", "second-handshake", format!("request {k}: {n} handshake packets"));
+                }
+            }
+        }
+
+        /* C20, handler part: without session expiry, capacity pressure or a restart, a request the
+           application still holds remains answerable — the passing of time (request timeouts of
+           this node's own requests, challenge expiry) never takes the requester's session away —
+           and the response the application hands over is put on the wire to the requester */
+        let responded = self.last_responded.take();
+        if self.monitors.c20 && self.cfg.session_timeout.is_none() && self.cfg.session_capacity.is_none() {
+            if matches!(ev, Ev::Timer) {
+                for i in 0..self.nodes.len() {
+                    if let (Some(p), Some(q)) = (&pre[i], &post[i]) {
+                        let only_timeouts = self.last_raw[i].iter().all(|e| !matches!(e, HandlerOut::RequestFailed(_, err) if !matches!(err, discv5::RequestError::Timeout)));
+                        if !only_timeouts {
+                            continue;
+                        }
+                        for s in &p.sessions {
+                            let held = self.nodes[i].inbound.iter().any(|(a, _)| *a == s.addr);
+                            if held {
+                                self.count("timer_steps_with_a_held_request");
+                            }
+                            if held && !q.sessions.iter().any(|x| x.addr == s.addr) {
+                                let (name, addr) = (self.name_of(&s.addr.node_id), s.addr.socket_addr);
+                                self.violate("C20", "each delivered request leads to exactly one response to the node address it came from", "held-request-unanswerable", format!("node {i} dropped its session with {name} at {addr} in a timer step that only reported timeouts {:?}, while its application holds a request from that peer", self.last_events[i]));
+                            }
+                        }
+                    }
+                }
+            }
+            if let Some((i, addr, id)) = responded {
+                let had_session = pre[i].as_ref().map(|p| p.sessions.iter().any(|s| s.addr == addr)).unwrap_or(false);
+                if had_session {
+                    let me = self.nodes[i].addr;
+                    let sent = self.log[self.log_mark..].iter().any(|d| d.src == me && d.dst == addr.socket_addr && matches!(self.read(d).0, Plain::Response(ref rid, _) if *rid == id));
+                    if sent {
+                        self.count("responses_put_on_the_wire");
+                    } else {
+                        self.violate("C20", "each delivered request leads to exactly one response to the node address it came from", "response-not-sent", format!("node {i} holds a session with {} but emitted no response datagram for the request its application answered", addr.socket_addr));
+                    }
                 }
             }
         }
